@@ -5,7 +5,7 @@ import random
 
 from . import gen
 
-BIG = 100000
+BIG = 3000
 
 
 def problems(rng: random.Random):
